@@ -718,6 +718,10 @@ def _den_func(x, level):
         _ax("SQLite: date(x) / datetime(x) are null for null x and otherwise the engine's conversion (uninterpreted)")
         f = z3.Function(f"sqlite_{name.lower()}", ds[0].sort, INT)
         return N.lift(lambda a: f(a), ds[0])
+    if name == "STRFTIME" and len(ds) == 2:
+        _ax("SQLite: strftime(<datetime storage format>, x) is null for null x and otherwise the engine's conversion to a datetime text (uninterpreted, the same function as datetime(x))")
+        f = z3.Function("sqlite_datetime", ds[1].sort, INT)
+        return N.lift(lambda a: f(a), ds[1])
     if name == "LENGTH":
         return N.lift(lambda a: z3.Length(a), ds[0])
     if name == "REPLACE":
